@@ -178,7 +178,7 @@ EX_NOTE = ('Trusts Coq kernel + vm_compute; the HAND-WRITTEN models coq/ExCan.v 
            'comparing frames written / text printed / state digests with the extracted model; real sockets, timerfd, clock values, malloc failure and libc internals '
            'are not modelled. Print Assumptions: closed under the global context.')
 CLAIMED.update({
- 'C18': dict(text='Theorems C18_can / C18_hello / C18_vss / C18_aaf / C18_cvf / C18_crf: for the modelled receive path of each of the six example listeners, in '
+ 'C18': dict(text='Theorems C18_can / C18_can_stale_independent (the CAN listener never reads stale buffer bytes) / C18_hello / C18_vss / C18_aaf / C18_cvf / C18_crf: for the modelled receive path of each of the six example listeners, in '
                   'each mode (UDP/raw, TSCF/NTSCF, classic/FD, CRF listener/talker, any max transit time), both byte orders, EVERY datagram of any length and '
                   'content and every SEQUENCE of datagrams from every reachable listener state (receive buffer with arbitrary stale content, queues, counters): '
                   'each datagram ends as handled or dropped - never an access outside the receive buffer / CAN frame / queue entry / decoder destination, never the '
